@@ -553,34 +553,38 @@ fn check_names(o: &mut CaseOut, family: &str, list: &[Vec<u8>]) {
                 o.count(&format!("X~{key}"), 1);
                 o.count("tok_substreams_cross_decoded", subs.len() as u64);
                 for (ttype, sub) in subs {
-                    let theirs = guard::catch(|| codecs::rans_nx16::decode(sub, 0));
+                    // The content of a token stream is not known independently. A candidate X counts as
+                    // "the input of this stream" iff noodles' (deterministic) encoder maps X to exactly
+                    // these bytes; the property then demands that the specification decoder returns X.
+                    let is_input = |x: &[u8]| matches!(guard::catch(|| codecs::rans_nx16::encode(codecs::rans_nx16::Flags::from(0), x)), Ok(Ok(e)) if e == sub);
                     let mine = refrans::decode_nx16(sub, None);
-                    match (&mine, &theirs) {
-                        (Ok(a), Ok(Ok(b))) if a == b => {}
-                        _ => {
-                            // known encoder defect?
-                            match refrans::decode_nx16_dialect(sub, None) {
-                                Ok((_, notes)) if !notes.is_empty() => {
-                                    let d = primary(&notes);
-                                    if !hit.contains(&d) {
-                                        hit.push(d);
-                                        o.violation_with(
-                                            format!("tok-xdec:substream-encoder-defect={d}"),
-                                            format!(
-                                                "token stream (type byte {ttype:#04x}) inside the name tokenizer block is an rANS Nx16 stream the specification decoder cannot read ({}); it carries the encoder's known deviation {notes:?}; family {} ({req}): {}; stream {}",
-                                                mine.as_ref().err().cloned().unwrap_or_else(|| "differs from noodles' decoding".into()), family, show_names(list), head(sub)
-                                            ),
-                                            wit.clone(),
-                                        );
-                                    }
-                                }
-                                _ => o.violation_with(
-                                    format!("tok-xdec:substream:{}", mine.as_ref().err().cloned().unwrap_or_else(|| "disagrees-with-noodles-decoder".into())),
-                                    format!("token stream (type byte {ttype:#04x}) inside the name tokenizer block: specification decoder says {:?}, noodles' decoder says {:?}; family {} ({req}): {}; stream {}", mine.as_ref().map(|v| head(v)), theirs.as_ref().map(|r| r.as_ref().map(|v| head(v)).map_err(|e| e.to_string())).map_err(|p| p.message.clone()), family, show_names(list), head(sub)),
+                    if matches!(&mine, Ok(y) if is_input(y)) {
+                        continue;
+                    }
+                    let spec_says = match &mine {
+                        Ok(_) => "decodes it to bytes that noodles' encoder does not map to this stream".to_string(),
+                        Err(e) => format!("cannot decode it: {e}"),
+                    };
+                    match refrans::decode_nx16_dialect(sub, None) {
+                        Ok((x, notes)) if !notes.is_empty() && is_input(&x) => {
+                            let d = primary(&notes);
+                            if !hit.contains(&d) {
+                                hit.push(d);
+                                o.violation_with(
+                                    format!("tok-xdec:substream-encoder-defect={d}"),
+                                    format!(
+                                        "token stream (type byte {ttype:#04x}) inside the name tokenizer block is the rANS Nx16 encoding of {} but the specification decoder {spec_says}; the stream carries the encoder's known deviation {notes:?}; family {family} ({req}): {}; stream {}",
+                                        head(&x), show_names(list), head(sub)
+                                    ),
                                     wit.clone(),
-                                ),
+                                );
                             }
                         }
+                        _ => o.violation_with(
+                            format!("tok-xdec:substream:{}", mine.as_ref().err().cloned().unwrap_or_else(|| "decodes-to-something-else".into())),
+                            format!("token stream (type byte {ttype:#04x}) inside the name tokenizer block: the specification decoder {spec_says}; family {family} ({req}): {}; stream {}", show_names(list), head(sub)),
+                            wit.clone(),
+                        ),
                     }
                 }
             }
